@@ -58,7 +58,7 @@ Proof.
   - intros P HP. apply (FrameRun.post_rnd_ext_wf n S1 S2 _ _ P (proj1 Ho) He).
 Qed.
 
-Definition push (acc : list bool) (x : Run.op * option bool) : list bool := match snd x with Some b => b :: acc | None => acc end.
+Notation push := SpecSem.push.
 
 Section Complete.
   Variable n : nat.
@@ -109,19 +109,19 @@ Section Complete.
         pose proof (sem_step_same n _ _ _ _ _ _ Hop He Hastep Hs1) as Hsame.
         cbn [push snd]. exact (IH {| Stab.gens := map (Stab.conj2 (Act.flows_of e) a b) (Stab.gens st); Stab.ncoins := Stab.ncoins st |} recs Sa1 T1 Ti1 la S' Hok' Hgs1
                  (SpecSem.eqs_trans n _ _ _ Hsame He1) G1 I1 Hre' Harest Hag).
-      + revert Ho. inversion Hre as [| | ? M b0 ? l' Hre' |]; subst. intros Ho. cbn [fst snd] in *.
-        pose proof (elim_ok_of_tracked n ev T Ti S (Stab.gens st) P GT I Hgs He Ho) as Hel.
+      + revert Ho. inversion Hre as [| | ? M b0 ? l' Hre' |]; subst. intros Ho0. assert (Ho : length P = n /\ True) by (split; [exact Ho0| exact Logic.I]). clear Ho0. cbn [fst snd] in *.
+        pose proof (elim_ok_of_tracked n ev T Ti S (Stab.gens st) P GT I Hgs He (proj1 Ho)) as Hel.
         assert (Hop : FrameRun.ok_op n (Run.OpM (denote (sgn, P)))) by (apply (SpecSem.denote_herm n), Ho).
         destruct (Htrack Hop) as (T1 & Ti1 & G1 & I1).
-        destruct (SpecSem.measure_sound n ev (evk_fxor B kf) (evk_fflip B kf) (evk_fzero B kf) sgn P st Hgs Ho Hel) as (Hgs1 & S1 & Hs1 & He1).
+        destruct (SpecSem.measure_sound n ev (evk_fxor B kf) (evk_fflip B kf) (evk_fzero B kf) sgn P st Hgs (proj1 Ho) Hel) as (Hgs1 & S1 & Hs1 & He1).
         (* the run's result is the evaluation of the specification's outcome form *)
         assert (Eb : b0 = ev (fst (Stab.measure sgn P st))).
         { unfold Stab.measure in *. destruct (existsb (Stab.is_anti P) (Stab.gens st)) eqn:Ean.
           - cbn [fst]. destruct Hag1 as [Hlt Er]. cbn [snd] in Er. injection Er as ->. symmetry. apply evk_var, Hlt.
-          - cbn [fst]. pose proof (SpecSem.measure_fixed_ok n ev (evk_fxor B kf) (evk_fflip B kf) (evk_fzero B kf) sgn P (Stab.gens st) Ho Hgs Ean (Hel Ean)) as Hd.
+          - cbn [fst]. pose proof (SpecSem.measure_fixed_ok n ev (evk_fxor B kf) (evk_fflip B kf) (evk_fzero B kf) sgn P (Stab.gens st) (proj1 Ho) Hgs Ean (Hel Ean)) as Hd.
             unfold meas_det in Hd. apply (He (neg _ (denote (sgn, P))) (proj1 Hop)) in Hd.
             inversion Hastep as [| ? ? o' Hd' | ? ? c' Hr']; subst.
-            + exact (FrameComplete.st_one_sign n T Ti S GT I _ _ _ (proj1 Hop) Hd' Hd).
+            + exact (FrameComplete.st_one_sign n T Ti _ GT I _ _ _ (proj1 Hop) Hd' Hd).
             + exfalso. destruct Hr' as [A0 A1]. destruct (ev (Stab.fflip (fst (Stab.reduce (Stab.build_piv (Stab.gens st) []) (Stab.fzero, P))) sgn));
                 [exact (A1 Hd)| rewrite neg_false in Hd; exact (A0 Hd)]. }
         subst b0.
@@ -130,8 +130,8 @@ Section Complete.
         destruct (Stab.measure sgn P st) as [f st1]. cbn [fst snd push] in *.
         exact (IH st1 (f :: recs) Sa1 T1 Ti1 la S' Hok' Hgs1 (SpecSem.eqs_trans n _ _ _ Hsame He1w) G1 I1 Hre' Harest Hag).
       + revert Ho. inversion Hre as [| | | ? P0 c0 ? l' Hre']; subst. intros Ho.
-        assert (Eb : FrameProg.cval (fun _ : nat => false) (map ev recs) (FrameProg.CRec k) = ev (nth k recs Stab.fzero)).
-        { cbn [FrameProg.cval]. rewrite <- (evk_fzero B kf). apply map_nth. }
+        assert (Eb : nth k (map ev recs) false = ev (nth k recs Stab.fzero)).
+        { rewrite <- (evk_fzero B kf). apply map_nth. }
         rewrite Eb in *.
         destruct (SpecSem.pauli_if_sound n ev (evk_fxor B kf) F (nth k recs Stab.fzero) st Hgs Ho) as (Hgs1 & S1 & Hs1 & He1).
         assert (Hop : FrameRun.ok_op n (Run.OpU (FrameProg.cpw (denote (false, F)) (ev (nth k recs Stab.fzero)))
@@ -143,3 +143,97 @@ Section Complete.
   Qed.
 End Complete.
 Print Assumptions records_are_evaluations.
+
+(* ---------- the assignment read off a run ---------- *)
+Fixpoint coinsof (ops : list SpecSem.sop) (s : Stab.state * list Stab.form) (la : list (Run.op * option bool)) : list (nat * bool) :=
+  match ops, la with
+  | o :: ops', x :: la' =>
+      (match o with
+       | SpecSem.SMs _ P => if existsb (Stab.is_anti P) (Stab.gens (fst s))
+                            then [(Stab.ncoins (fst s), match snd x with Some b => b | None => false end)] else []
+       | _ => [] end) ++ coinsof ops' (SpecSem.sexec o s) la'
+  | _, _ => []
+  end.
+Definition lookup (L : list (nat * bool)) (i : nat) : bool :=
+  match find (fun p => Nat.eqb (fst p) i) L with Some p => snd p | None => false end.
+
+Lemma ncoins_step o s : Stab.ncoins (fst s) <= Stab.ncoins (fst (SpecSem.sexec o s)).
+Proof.
+  destruct s as [st recs]. destruct o as [e q|e a b|sgn P|F k]; cbn [SpecSem.sexec fst Stab.ncoins]; try lia.
+  - unfold Stab.measure. destruct (existsb (Stab.is_anti P) (Stab.gens st)); cbn [fst Stab.ncoins]; lia.
+  - unfold Stab.pauli_if. cbn. lia.
+Qed.
+Lemma ncoins_run ops : forall s, Stab.ncoins (fst s) <= Stab.ncoins (fst (fold_left (fun s o => SpecSem.sexec o s) ops s)).
+Proof. induction ops as [|o ops IH]; intros s; cbn [fold_left]; [lia|]. pose proof (ncoins_step o s). specialize (IH (SpecSem.sexec o s)). lia. Qed.
+Lemma lookup_skip pre L i : (forall p, In p pre -> fst p <> i) -> lookup (pre ++ L) i = lookup L i.
+Proof.
+  intros H. unfold lookup. induction pre as [|p pre IH]; [reflexivity|]. cbn [app find].
+  destruct (Nat.eqb (fst p) i) eqn:E; [apply Nat.eqb_eq in E; exfalso; apply (H p); [now left| exact E]|]. apply IH. intros q Hq. apply H. now right.
+Qed.
+
+Lemma agrees_lookup B ops : forall s la rec pre, FrameProg.realize (fun _ => false) rec (map SpecSem.tr ops) la ->
+  (forall p, In p pre -> fst p < Stab.ncoins (fst s)) ->
+  Stab.ncoins (fst (fold_left (fun s o => SpecSem.sexec o s) ops s)) < B ->
+  agrees B (lookup (pre ++ coinsof ops s la)) ops s la.
+Proof.
+  induction ops as [|o ops IH]; intros s la rec pre Hre Hpre Hb; cbn [map] in Hre.
+  - inversion Hre; subst. exact Logic.I.
+  - destruct la as [|x la]; [inversion Hre|]. cbn [agrees coinsof fold_left] in *.
+    pose proof (ncoins_step o s) as Hmono. pose proof (ncoins_run ops (SpecSem.sexec o s)) as Hmono2.
+    assert (Hpre' : forall p, In p pre -> fst p < Stab.ncoins (fst (SpecSem.sexec o s))) by (intros p Hp; specialize (Hpre p Hp); lia).
+    destruct o as [e q|e a b|sgn P|F k]; cbn [SpecSem.tr] in Hre.
+    + split; [exact Logic.I|]. inversion Hre; subst. cbn [app]. eapply IH; eassumption.
+    + split; [exact Logic.I|]. inversion Hre; subst. cbn [app]. eapply IH; eassumption.
+    + inversion Hre as [| | ? M b0 ? l' Hre' |]; subst. destruct s as [st recs]. cbn [fst snd] in *.
+      destruct (existsb (Stab.is_anti P) (Stab.gens st)) eqn:Ean.
+      * assert (Enc : Stab.ncoins (fst (SpecSem.sexec (SpecSem.SMs sgn P) (st, recs))) = S (Stab.ncoins st)).
+        { cbn [SpecSem.sexec]. unfold Stab.measure. rewrite Ean. reflexivity. }
+        split.
+        -- split; [lia|]. f_equal. rewrite lookup_skip by (intros p Hp; specialize (Hpre p Hp); lia).
+           unfold lookup. cbn [app find fst]. now rewrite Nat.eqb_refl.
+        -- replace (pre ++ [(Stab.ncoins st, b0)] ++ coinsof ops (SpecSem.sexec (SpecSem.SMs sgn P) (st, recs)) la)
+             with ((pre ++ [(Stab.ncoins st, b0)]) ++ coinsof ops (SpecSem.sexec (SpecSem.SMs sgn P) (st, recs)) la) by (now rewrite <- app_assoc).
+           eapply IH; [exact Hre'| | exact Hb].
+           intros p Hp. apply in_app_or in Hp. destruct Hp as [Hp|[<-|[]]]; [specialize (Hpre p Hp); lia| cbn [fst]; lia].
+      * split; [exact Logic.I|]. cbn [app]. eapply IH; eassumption.
+    + split; [exact Logic.I|]. inversion Hre; subst. cbn [app]. eapply IH; eassumption.
+Qed.
+
+(* ---------- completeness ---------- *)
+Theorem spec_complete n ops la S' : Forall (SpecSem.sop_ok n) ops ->
+  FrameProg.realize (fun _ => false) [] (map SpecSem.tr ops) la -> Run.sem_run (fun P => Zplus P) la S' ->
+  exists B kf, fold_left push la [] = map (evk B kf) (snd (fold_left (fun s o => SpecSem.sexec o s) ops (Stab.init n, []))).
+Proof.
+  intros Hok Hre Hrun.
+  set (B := S (Stab.ncoins (fst (fold_left (fun s o => SpecSem.sexec o s) ops (Stab.init n, []))))).
+  set (kf := lookup (coinsof ops (Stab.init n, []) la)).
+  exists B, kf.
+  apply (records_are_evaluations n B kf ops (Stab.init n) [] (fun P => Zplus P) (fun P => P) (fun P => P) la S' Hok (SpecSem.init_wfgens n)
+           (SpecSem.init_is_zero_state n _ (evk_fzero B kf)) (Run.init_good n) (Run.init_inv n) Hre Hrun).
+  apply (agrees_lookup B ops (Stab.init n, []) la [] [] Hre); [intros p []| unfold B; lia].
+Qed.
+Print Assumptions spec_complete.
+
+(* evk is the oracle's evaluation SpecProofs.eval_form under the assignment vector (kf 0, ..., kf (B-1)) *)
+Lemma dot_app a1 a2 k1 k2 : length a1 = length k1 -> GF2.dot (a1 ++ a2) (k1 ++ k2) = xorb (GF2.dot a1 k1) (GF2.dot a2 k2).
+Proof.
+  revert k1; induction a1 as [|x a1 IH]; intros [|y k1] H; cbn in *; try lia; [now destruct (GF2.dot a2 k2)|].
+  rewrite IH by lia. destruct (x && y), (GF2.dot a1 k1), (GF2.dot a2 k2); reflexivity.
+Qed.
+Lemma evk_is_eval_form B kf f : evk B kf f = SpecProofs.eval_form B (map kf (seq 0 B)) f.
+Proof.
+  unfold evk, SpecProofs.eval_form, Spec.vec_of. f_equal. generalize (snd f) as mask. intros mask.
+  induction B as [|b IH]; [reflexivity|]. cbn [mpar]. rewrite seq_S, !map_app, dot_app by (now rewrite !map_length).
+  rewrite <- IH. cbn [map GF2.dot Nat.add]. rewrite xorb_false_r. apply xorb_comm.
+Qed.
+
+(* completeness in the oracle's own terms: every legal record is satisfiable *)
+Corollary spec_complete_oracle n ops la S' : Forall (SpecSem.sop_ok n) ops ->
+  FrameProg.realize (fun _ => false) [] (map SpecSem.tr ops) la -> Run.sem_run (fun P => Zplus P) la S' ->
+  exists m k, length k = m /\
+    fold_left push la [] = map (SpecProofs.eval_form m k) (snd (fold_left (fun s o => SpecSem.sexec o s) ops (Stab.init n, []))).
+Proof.
+  intros Hok Hre Hrun. destruct (spec_complete n ops la S' Hok Hre Hrun) as (B & kf & E).
+  exists B, (map kf (seq 0 B)). split; [now rewrite map_length, seq_length|]. rewrite E. apply map_ext. intros f. apply evk_is_eval_form.
+Qed.
+Print Assumptions spec_complete_oracle.
